@@ -144,6 +144,22 @@ def rules_c04(prop, repo):
         negs = [t for _, t in nb.calls() if (t.get("fn") or {}).get("name") == "neg"]
         R2.instance()
         R2.check(len(negs) == 1, "%s:neg:op" % prop, "G::neg applies %d field negations" % len(negs), nb.file_line(), nb.rec["path"], sample={"field_negations": len(negs)})
+    # compound / by-reference forms of the point addition forward to the one adder
+    for imp in F.impls:
+        if imp.get("self_adt") == "crate::groups::G" and imp.get("trait") in ("core::ops::AddAssign", "core::ops::Add") and imp["self_ty"] != "crate::groups::G<P>" or \
+           (imp.get("self_adt") == "crate::groups::G" and imp.get("trait") == "core::ops::AddAssign"):
+            for item in imp["items"]:
+                fb = F.bodies.get(item)
+                if fb is None:
+                    continue
+                R2.instance()
+                tbb = repo.tb(fb)
+                v = tbb.final_value(("deref", 1)) if imp["trait"].endswith("Assign") else tbb.return_value()
+                ok = v[0] == "call" and v[1].name == "add" and len(v[2]) == 2
+                if ok:
+                    a0, a1 = strip(v[2][0]), strip(v[2][1])
+                    ok = a0 in (("init", ("deref", 1)), ("param", 1)) and a1 in (("param", 2), ("init", ("deref", 2)))
+                R2.check(ok, "%s:forward:%s" % (prop, item), "%s is not `self + rhs` through the one adder: %s" % (item, show(v, maxdepth=3)[:140]), fb.file_line(), item, sample={"impl": item})
     for w, inner in (("<crate::G1 as core::ops::Add>::add", "add"), ("<crate::G1 as core::ops::Sub>::sub", "sub"), ("<crate::G1 as core::ops::Neg>::neg", "neg"),
                      ("<crate::G2 as core::ops::Add>::add", "add"), ("<crate::G2 as core::ops::Sub>::sub", "sub"), ("<crate::G2 as core::ops::Neg>::neg", "neg")):
         wb = F.bodies.get(w)
